@@ -35,6 +35,27 @@ class F64 {
   bool operator==(const F64 &o) const { return Engine::get().decide(z3::fp_eq(e, o.e)); }
   bool operator!=(const F64 &o) const { return Engine::get().decide(!z3::fp_eq(e, o.e)); }
 };
+// a narrower scalar (IEEE binary32) constructible from F64 by rounding to nearest: for grids built from a sequence whose
+// value type differs from the grid's scalar type (the conversion may collapse distinct values)
+class F32 {
+  z3::expr e;
+
+ public:
+  F32() : e(ctx().fpa_val(0.0f)) {}
+  template <typename I, std::enable_if_t<std::is_integral_v<I>, bool> = true>
+  explicit F32(I i) : e(ctx().fpa_val((float)i)) {}
+  explicit F32(const F64 &d) : e(z3::expr(ctx(), Z3_mk_fpa_to_fp_float(ctx(), ctx().fpa_rounding_mode(), d.expr(), ctx().fpa_sort(8, 24)))) {}
+  F32(const F32 &) = default;
+  F32 &operator=(const F32 &) = default;
+  const z3::expr &expr() const { return e; }
+  bool operator<(const F32 &o) const { return Engine::get().decide(e < o.e); }
+  bool operator<=(const F32 &o) const { return Engine::get().decide(e <= o.e); }
+  bool operator>(const F32 &o) const { return Engine::get().decide(e > o.e); }
+  bool operator>=(const F32 &o) const { return Engine::get().decide(e >= o.e); }
+  bool operator==(const F32 &o) const { return Engine::get().decide(z3::fp_eq(e, o.e)); }
+  bool operator!=(const F32 &o) const { return Engine::get().decide(!z3::fp_eq(e, o.e)); }
+};
+inline Bool flt32(const F64 &a, const F64 &b) { return Bool(F32(a).expr() < F32(b).expr()); }
 inline Bool flt(const F64 &a, const F64 &b) { return Bool(a.expr() < b.expr()); }
 inline Bool fle(const F64 &a, const F64 &b) { return Bool(a.expr() <= b.expr()); }
 inline Bool feq(const F64 &a, const F64 &b) { return Bool(z3::fp_eq(a.expr(), b.expr())); }
@@ -65,6 +86,23 @@ class F64 {
   bool operator==(const F64 &o) const { return d == o.d; }
   bool operator!=(const F64 &o) const { return d != o.d; }
 };
+class F32 {
+  float f;
+
+ public:
+  F32() : f(0) {}
+  template <typename I, std::enable_if_t<std::is_integral_v<I>, bool> = true>
+  explicit F32(I i) : f((float)i) {}
+  explicit F32(const F64 &d) : f((float)d.val()) {}
+  float val() const { return f; }
+  bool operator<(const F32 &o) const { return f < o.f; }
+  bool operator<=(const F32 &o) const { return f <= o.f; }
+  bool operator>(const F32 &o) const { return f > o.f; }
+  bool operator>=(const F32 &o) const { return f >= o.f; }
+  bool operator==(const F32 &o) const { return f == o.f; }
+  bool operator!=(const F32 &o) const { return f != o.f; }
+};
+inline Bool flt32(const F64 &a, const F64 &b) { return Bool((float)a.val() < (float)b.val()); }
 inline Bool flt(const F64 &a, const F64 &b) { return Bool(a.val() < b.val()); }
 inline Bool fle(const F64 &a, const F64 &b) { return Bool(a.val() <= b.val()); }
 inline Bool feq(const F64 &a, const F64 &b) { return Bool(a.val() == b.val()); }
